@@ -202,7 +202,7 @@ INC = [
     ("body", "Included text."),
     ("body", "+ [Back] -> Start"),
     ("body", ""),
-    ("body", "@include sub/deep.bard"),
+    ("body", "@include sub/main.bard"),
     ("body", ""),
     ("body", ":: IncTwo"),
     ("body", "More text {1 + 1}."),
@@ -330,7 +330,7 @@ def hollow_one(kind):
 SCENARIOS = {
     "plain": ("main.bard", {"main.bard": HOST_PLAIN}),
     "blocks": ("main.bard", {"main.bard": HOST_BLOCKS}),
-    "include": ("main.bard", {"main.bard": MAIN_INC, "inc.bard": INC, "sub/deep.bard": DEEP}),
+    "include": ("main.bard", {"main.bard": MAIN_INC, "inc.bard": INC, "sub/main.bard": DEEP}),
     "join": ("main.bard", {"main.bard": HOST_JOIN}),
     "struct": ("main.bard", {"main.bard": HOST_STRUCT}),
     "hollow": ("main.bard", dict({"main.bard": MAIN_HOLLOW, "chapter.bard": CHAPTER}, **HOLLOW_FILES)),
